@@ -490,3 +490,7 @@ def run(rep, tier):
         from ..engines import row_coverage, validators
         rep.call(row_coverage.group_tail, rep, prog, "C12.kernel-rows")
         rep.call(validators.crop_passthrough, rep, prog, "C12.crop-passthrough")
+        # the vertical-only pass receives the crop's column offset: every source access of the
+        # vertical kernels depends on the column cursor
+        from ..engines import loadwidth
+        rep.call(loadwidth.offset_flows, rep, prog, "C12.offset-flows", {"x86": 30, "x86-rayon": 30, "arm": 8, "arm-rayon": 8, "wasm": 15}.get(cfg, 8))
